@@ -3,7 +3,7 @@ From Coq Require Import List NArith ZArith Bool String.
 From Coq Require Import Strings.Byte.
 From NfpmV Require Import Lib.Bytes Model.Path Model.Content Model.Prepare Model.Payload Spec.C05 Spec.C01 Spec.C04.
 From NfpmV Require Import Proofs.KeyFacts Proofs.PlanFacts Proofs.C05Proofs Proofs.C01Proofs Proofs.C04Proofs Proofs.C04Plan Proofs.C04Parents.
-From NfpmV Require Import Model.Cpio Proofs.CpioProofs.
+From NfpmV Require Import Model.Cpio Proofs.CpioProofs Model.Tar Proofs.TarProofs Model.RpmFile Proofs.RpmFileProofs Model.Container Proofs.C10Proofs.
 Import ListNotations.
 Open Scope list_scope.
 
@@ -78,4 +78,83 @@ Example C04_cpio_example :
   let e2 := {| ce_name := B "./usr/a"; ce_mode := N.to_nat 33188; ce_data := B "hello"; ce_pre := B "00000002";
                ce_mid := B "0000000000000000000000015F5E1000"; ce_dev := B "00000000000000000000000000000000"; ce_chk := B "00000000" |} in
   cpio_reencodes (cpio_encode [e1; e2]) = true /\ List.length (cpio_encode [e1; e2]) = 368.
+Proof. vm_compute. split; reflexivity. Qed.
+
+(* THE TAR CONTAINER, at block level, for every header format nfpm writes (USTAR, PAX, GNU: extension members are
+   members like any other at this level): 512-byte header blocks whose size field is 11 octal digits and a NUL and
+   whose checksum field is 6 octal digits, NUL, blank over the block with that field read as blanks, bodies padded
+   to 512 with zeros, two zero blocks at the end. For ANY members (any raw name / mode / owner / time / type / link
+   bytes of the right widths, any body below 8 GiB) the reader - which checks every checksum and every padding -
+   returns exactly the members written and stops at the end marker. *)
+Theorem C04_tar_roundtrip :
+  forall ms, Forall wf_tmember ms -> tar_read (tar_full ms) = Some (ms, repeat tnul 1024).
+Proof. exact tar_read_full. Qed.
+Print Assumptions C04_tar_roundtrip.
+
+(* apk: segments cut before the end-of-archive marker followed by a complete tar ARE one tar archive holding the
+   members of all of them in order, and are read as that *)
+Theorem C04_apk_segments_read_as_one_tar :
+  forall sg ctl data, Forall wf_tmember sg -> Forall wf_tmember ctl -> Forall wf_tmember data ->
+  tar_cut sg ++ tar_cut ctl ++ tar_full data = tar_full (sg ++ ctl ++ data) /\
+  tar_members (S (List.length (sg ++ ctl ++ data))) (tar_cut sg ++ tar_cut ctl ++ tar_full data)
+  = Some (sg ++ ctl ++ data, repeat tnul 1024).
+Proof. exact tar_segments_concatenate. Qed.
+Print Assumptions C04_apk_segments_read_as_one_tar.
+
+(* a cut segment alone is read to its last byte, with nothing left and no marker seen *)
+Theorem C04_tar_cut_roundtrip :
+  forall ms, Forall wf_tmember ms -> tar_read (tar_cut ms) = Some (ms, []).
+Proof. exact tar_read_cut. Qed.
+Print Assumptions C04_tar_cut_roundtrip.
+
+(* what the per-run checks on the tar streams of real packages mean *)
+Theorem C04_tar_check_sound :
+  (forall s, tar_reencodes_full s = true -> exists ms, tar_read s = Some (ms, repeat tnul 1024) /\ tar_full ms = s) /\
+  (forall s, tar_reencodes_cut s = true -> exists ms, tar_read s = Some (ms, []) /\ tar_cut ms = s).
+Proof. split; [exact reencodes_full_sound|exact reencodes_cut_sound]. Qed.
+Print Assumptions C04_tar_check_sound.
+
+(* non-vacuity: a two-member archive (a directory, a 5-byte file) meets the hypothesis, is 3072 bytes long and passes the check *)
+Example C04_tar_example :
+  let d := {| tm_pre := B "./usr/" ++ repeat tnul 94 ++ B "0000755" ++ [tnul] ++ B "0000000" ++ [tnul] ++ B "0000000" ++ [tnul];
+              tm_mtime := B "14371573400" ++ [tnul]; tm_post := B "5" ++ repeat tnul 355; tm_data := [] |} in
+  let f := {| tm_pre := B "./usr/a" ++ repeat tnul 93 ++ B "0000644" ++ [tnul] ++ B "0000000" ++ [tnul] ++ B "0000000" ++ [tnul];
+              tm_mtime := B "14371573400" ++ [tnul]; tm_post := B "0" ++ repeat tnul 355; tm_data := B "hello" |} in
+  Forall wf_tmember [d; f] /\ tar_reencodes_full (tar_full [d; f]) = true /\ List.length (tar_full [d; f]) = 512 * 5.
+Proof.
+  cbv zeta. split; [|split; vm_compute; reflexivity].
+  repeat constructor; vm_compute; try reflexivity.
+Qed.
+
+(* THE RPM FILE LAYOUT: 96-byte lead, signature section, zero padding, header section, payload, each section being
+   magic, entry count and store size (32-bit big-endian), 16 bytes per index entry and the store. Read back, a file
+   yields exactly what was written - for any index entries, stores and payload - and the header section ALWAYS starts
+   at a multiple of 8 ("8-byte-aligned signature header"). *)
+Theorem C04_rpm_layout_roundtrip : forall f, wf_rpmfile f -> rpm_decode (rpm_encode f) = Some f.
+Proof. exact rpm_roundtrip. Qed.
+Print Assumptions C04_rpm_layout_roundtrip.
+
+Theorem C04_rpm_header_aligned : forall f, hdr_offset f mod 8 = 0.
+Proof. exact header_aligned. Qed.
+Print Assumptions C04_rpm_header_aligned.
+
+(* what the per-run checks on the bytes of real .rpm and .deb files mean (the ar round trip itself is C10_ar_roundtrip) *)
+Theorem C04_rpm_check_sound :
+  forall s, rpm_reencodes s = true -> exists f, rpm_decode s = Some f /\ rpm_encode f = s /\ hdr_offset f mod 8 = 0.
+Proof. exact rpm_reencodes_sound. Qed.
+Print Assumptions C04_rpm_check_sound.
+
+Theorem C04_ar_check_sound :
+  forall s, ar_reencodes s = true ->
+  exists ms, ar_encode ms = s /\ ar_decode s = Some (map (fun m => (m_name m, m_body m)) ms).
+Proof. exact ar_reencodes_sound. Qed.
+Print Assumptions C04_ar_check_sound.
+
+(* non-vacuity: a file with a one-entry signature section whose 5-byte store needs 3 bytes of padding *)
+Example C04_rpm_example :
+  let f := {| rf_lead := lead_magic ++ repeat rnul 92;
+              rf_sig := {| rs_index := [{| ie_tag := 1000; ie_type := 4; ie_off := 0; ie_cnt := 1 |}]; rs_store := B "12345" |};
+              rf_hdr := {| rs_index := [{| ie_tag := 1000; ie_type := 6; ie_off := 0; ie_cnt := 1 |}]; rs_store := B "name" ++ [rnul] |};
+              rf_payload := B "payload" |} in
+  rpm_reencodes (rpm_encode f) = true /\ hdr_offset f = 136.
 Proof. vm_compute. split; reflexivity. Qed.
